@@ -801,3 +801,74 @@ fn c19_display_lower() {
     expect(&s, b"(<-,b]");
     kani::cover!(true);
 }
+
+// ---------------------------------------------------------------- thorough tier: C13 scalar operations at i16 (members probed in i32)
+fn any_interval_i16(kind: u8) -> Interval<i16> {
+    let a: i16 = kani::any();
+    let b: i16 = kani::any();
+    match kind { 0 => { kani::assume(a <= b); Interval::TwoSided(a, b) } 1 => Interval::UpperOneSided(a), _ => Interval::LowerOneSided(a) }
+}
+fn apply_i32(op: Op, x: i32, k: i32) -> i32 { match op { Op::Add => x + k, Op::Sub => x - k, Op::Mul => x * k, Op::Div => x / k, Op::Neg => -x } }
+fn in_i16(v: i32) -> bool { -32768 <= v && v <= 32767 }
+fn check_scalar_i16(op: Op, kind: u8) {
+    let a = any_interval_i16(kind);
+    let k: i16 = kani::any();
+    if op == Op::Div { kani::assume(k != 0); }
+    let bnds: [Option<i16>; 2] = match a {
+        Interval::TwoSided(l, h) => [Some(l), Some(h)],
+        Interval::UpperOneSided(l) => [Some(l), None],
+        Interval::LowerOneSided(h) => [None, Some(h)],
+    };
+    for b in bnds.iter().flatten() { kani::assume(in_i16(apply_i32(op, *b as i32, k as i32))); }
+    let r = match op { Op::Add => a + k, Op::Sub => a - k, Op::Mul => a * k, Op::Div => a / k, Op::Neg => -a };
+    let increasing = match op { Op::Add | Op::Sub => true, Op::Mul | Op::Div => k > 0, Op::Neg => false };
+    let constant = op == Op::Mul && k == 0;
+    if let Interval::TwoSided(l, h) = r { assert!(l <= h); }
+    match a {
+        Interval::TwoSided(..) => assert!(r.is_two_sided()),
+        Interval::UpperOneSided(_) => { if constant { assert!(r.is_two_sided()); } else if increasing { assert!(r.is_upper()); } else { assert!(r.is_lower()); } }
+        Interval::LowerOneSided(_) => { if constant { assert!(r.is_two_sided()); } else if increasing { assert!(r.is_lower()); } else { assert!(r.is_upper()); } }
+    }
+    let x: i16 = kani::any();
+    if a.contains(&x) && in_i16(apply_i32(op, x as i32, k as i32)) {
+        assert!(r.contains(&(apply_i32(op, x as i32, k as i32) as i16)), "x in A but x op k not in A op k");
+    }
+    let img = |b: i16| apply_i32(op, b as i32, k as i32) as i16;
+    let attained = |v: i16| bnds.iter().flatten().any(|b| img(*b) == v);
+    match r {
+        Interval::TwoSided(l, h) => assert!(attained(l) && attained(h)),
+        Interval::UpperOneSided(l) => assert!(attained(l)),
+        Interval::LowerOneSided(h) => assert!(attained(h)),
+    }
+    kani::cover!(k > 0);
+    kani::cover!(k < 0);
+}
+macro_rules! scalar16_harnesses {
+    ($($name:ident: $op:expr, $kind:expr;)*) => { $( #[kani::proof] #[kani::unwind(4)] fn $name() { check_scalar_i16($op, $kind); } )* };
+}
+scalar16_harnesses! {
+    c13t_add_scalar_two_i16: Op::Add, 0; c13t_add_scalar_upper_i16: Op::Add, 1; c13t_add_scalar_lower_i16: Op::Add, 2;
+    c13t_sub_scalar_two_i16: Op::Sub, 0; c13t_sub_scalar_upper_i16: Op::Sub, 1; c13t_sub_scalar_lower_i16: Op::Sub, 2;
+    c13t_mul_scalar_two_i16: Op::Mul, 0; c13t_mul_scalar_upper_i16: Op::Mul, 1; c13t_mul_scalar_lower_i16: Op::Mul, 2;
+    c13t_neg_two_i16: Op::Neg, 0; c13t_neg_upper_i16: Op::Neg, 1; c13t_neg_lower_i16: Op::Neg, 2;
+}
+// thorough tier: C07 at i16 with i32 probes (same statements as the i8 harnesses)
+#[kani::proof]
+fn c07t_contains_includes_i16() {
+    let a = any_interval_i16(any_kind());
+    let b = any_interval_i16(any_kind());
+    let d = |i: &Interval<i16>, x: i32| match i {
+        Interval::TwoSided(l, h) => (*l as i32) <= x && x <= (*h as i32),
+        Interval::UpperOneSided(l) => (*l as i32) <= x,
+        Interval::LowerOneSided(h) => x <= (*h as i32),
+    };
+    let x: i32 = kani::any();
+    kani::assume(-40000 <= x && x <= 40000);
+    let y: i16 = kani::any();
+    assert!(a.contains(&y) == d(&a, y as i32));
+    if a.includes(&b) { assert!(!d(&b, x) || d(&a, x)); }
+    if !a.intersects(&b) { assert!(!(d(&a, x) && d(&b, x))); }
+    assert!(a.intersects(&b) == b.intersects(&a));
+    kani::cover!(a.includes(&b));
+    kani::cover!(!a.intersects(&b));
+}
